@@ -13,7 +13,7 @@
     Termination under HAP is proved only on the bounded in-kernel grid (lists of length <= 3 over {0, 1}). *)
 From Coq Require Import List. Import ListNotations.
 From LC Require Import Spec.Encodings Spec.Confluence Spec.NorEval Model.Reduction Model.Convert Gen.Terms
-  Proofs.Sound Proofs.ReduceProps Proofs.Normalise Proofs.Convert Proofs.ChurchArith Proofs.PairList Proofs.OtherLists Proofs.Returns.
+  Proofs.Sound Proofs.ReduceProps Proofs.Normalise Proofs.Convert Proofs.ChurchArith Proofs.PairList Proofs.OtherLists Proofs.Returns Proofs.EagerTyped.
 
 (** (1) constructors and observers, on encoded lists *)
 Theorem C16_pair_basic : forall x r, closed x = true -> allc r ->
@@ -232,6 +232,22 @@ Proof.
   - apply (lazy_returns o); auto. apply church_nf.
 Qed.
 
+(** HAP (and APP) too, for ALL lists of numerals, for the constructors and observers of Church (fold) lists and of
+    pair lists: these applications are simply typable, hence strongly normalising, hence normalised by every strategy
+    ([full o] is o = NOR \/ o = HNO \/ o = APP \/ o = HAP) *)
+Theorem C16_eager_returns : forall o k l, full o ->
+  (returns o (App (App lc_list_church_cons (church k)) (nl l)) (nl (k :: l)) /\
+   returns o (App lc_list_church_head (nl (k :: l))) (church k) /\
+   returns o (App lc_list_church_tail (nl (k :: l))) (nl l) /\
+   returns o (App lc_list_church_is_nil (nl (k :: l))) fls_t /\
+   returns o (App lc_list_church_is_nil (nl [])) tru_t) /\
+  (returns o (App (App lc_list_pair_cons (church k)) (pair_list (map church l))) (pair_list (map church (k :: l))) /\
+   returns o (App lc_list_pair_head (pair_list (map church (k :: l)))) (church k) /\
+   returns o (App lc_list_pair_tail (pair_list (map church (k :: l)))) (pair_list (map church l)) /\
+   returns o (App lc_list_pair_is_nil (pair_list (map church (k :: l)))) fls_t /\
+   returns o (App lc_list_pair_is_nil (pair_list (map church []))) tru_t).
+Proof. intros o k l F. split; [apply church_list_returns|apply pair_list_returns]; auto. Qed.
+
 Print Assumptions C16_pair_basic.
 Print Assumptions C16_church_basic.
 Print Assumptions C16_scott_basic.
@@ -245,3 +261,4 @@ Print Assumptions C16_lists_normal.
 Print Assumptions C16_nor_returns.
 Print Assumptions C16_hno_returns.
 Print Assumptions C16_reduce_returns.
+Print Assumptions C16_eager_returns.
